@@ -26,6 +26,9 @@ pub enum Env {
     /// Fresh thread that first compiles the previous revision of the *same* files at the
     /// same locations (annotation texts differ, byte offsets do not), then the files.
     Revision { hash_seed: u64 },
+    /// The playground entry point `oal_wasm::compile` (native build) on a fresh thread;
+    /// `after_revision`: the previous revision of the text was compiled first.
+    Wasm { hash_seed: u64, after_revision: bool },
     /// The real oal-cli in a fresh process; `None` = not pinned (real entropy / clock / ASLR).
     Process { hash_seed: Option<u64>, fake_time: Option<i64>, aslr_off: bool },
 }
@@ -152,6 +155,27 @@ pub fn execute(files: &BTreeMap<String, String>, env: &Env, pc: Option<&ProcCfg>
             let _ = peer.join();
             r
         }
+        Env::Wasm { hash_seed, after_revision } => {
+            let text = files.get("main.oal").cloned().unwrap_or_default();
+            let r = on_fresh_thread(hash_seed, 64, move || {
+                let run = |t: &str| {
+                    let t = t.to_string();
+                    std::panic::catch_unwind(move || oal_wasm::compile(&t))
+                };
+                if after_revision {
+                    let _ = run(&gen::annotation_twist(&text));
+                }
+                let r = run(&text);
+                // oal-wasm installs its own panic hook on first use: keep the simulator quiet
+                std::panic::set_hook(Box::new(|_| {}));
+                match r {
+                    Ok(c) if c.error.is_empty() => Ok(c.api),
+                    Ok(c) => Err(c.error),
+                    Err(_) => Err("panic".to_string()),
+                }
+            });
+            r.unwrap_or_else(|p| Err(format!("panic: {p}")))
+        }
         Env::Process { hash_seed, fake_time, aslr_off } => match pc {
             Some(pc) => run_process(pc, files, hash_seed, fake_time, aslr_off),
             None => Err("harness: real binaries not available".into()),
@@ -163,13 +187,23 @@ fn is_process(e: &Env) -> bool {
     matches!(e, Env::Process { .. })
 }
 
+/// Documents are compared within a group: the location (and with it the implicit
+/// component names) differs between the in-process loader, the CLI's directory and wasm.
+fn group_of(e: &Env) -> u8 {
+    match e {
+        Env::Process { .. } => 1,
+        Env::Wasm { .. } => 2,
+        _ => 0,
+    }
+}
+
 /// Runs all environments and compares the documents byte for byte
 /// (in-process and process documents are compared within their own group: the
 /// location, and with it the implicit component names, differs between groups).
 pub fn compare(scn: &Scenario, pc: Option<&ProcCfg>) -> (Option<(String, String)>, Vec<Result<String, String>>) {
     let outs: Vec<Result<String, String>> = scn.envs.iter().map(|e| execute(&scn.files, e, pc)).collect();
-    for group in [false, true] {
-        let idx: Vec<usize> = (0..scn.envs.len()).filter(|i| is_process(&scn.envs[*i]) == group).collect();
+    for group in [0u8, 1, 2] {
+        let idx: Vec<usize> = (0..scn.envs.len()).filter(|i| group_of(&scn.envs[*i]) == group).collect();
         for w in idx.windows(2) {
             let (a, b) = (&outs[w[0]], &outs[w[1]]);
             if a.as_ref().err().map(|e| e.starts_with("harness:")).unwrap_or(false) || b.as_ref().err().map(|e| e.starts_with("harness:")).unwrap_or(false) {
@@ -325,6 +359,11 @@ pub fn run(seed: u64, run: u64) -> Report {
             envs.push(Env::Process { hash_seed: None, fake_time: None, aslr_off: false });
         }
     }
+    if files.len() == 1 {
+        // the playground entry point, twice (different hash seeds; once after the previous revision)
+        envs.push(Env::Wasm { hash_seed: er.next_u64(), after_revision: false });
+        envs.push(Env::Wasm { hash_seed: er.next_u64(), after_revision: true });
+    }
     let scn = Scenario { files, envs };
     let (v, outs) = compare(&scn, pc.as_ref());
 
@@ -348,6 +387,7 @@ pub fn run(seed: u64, run: u64) -> Report {
                 Env::Reused { .. } => "reused_thread_after_warmups",
                 Env::PeerAlive { .. } => "second_compiler_thread_alive",
                 Env::Revision { .. } => "previous_revision_compiled_on_same_thread",
+                Env::Wasm { .. } => "wasm_entry_point",
                 Env::Process { hash_seed: Some(_), .. } => "process_pinned_seed_and_clock",
                 Env::Process { .. } => "process_unpinned",
             }
@@ -426,7 +466,7 @@ fn minimise(ast: &gen::ProgramAst, layout: &Layout, scn: &Scenario, pc: Option<&
     // 1. environments: find one failing pair
     'pair: for i in 0..scn.envs.len() {
         for j in i + 1..scn.envs.len() {
-            if is_process(&scn.envs[i]) != is_process(&scn.envs[j]) {
+            if group_of(&scn.envs[i]) != group_of(&scn.envs[j]) {
                 continue;
             }
             let c = Scenario {
